@@ -46,7 +46,9 @@ CONSTANTS
                 \*        (Issue::op / Patch::op / Identity::op as found).
 
 Root == 0
-None == -1      \* "no reference" / "nothing evaluated yet"
+None == -1      \* "no reference"
+\* "nothing evaluated (since the references last moved)"
+NoView == [log |-> <<>>, lww |-> None, hist |-> {}, tips |-> {}]
 
 -----------------------------------------------------------------------------
 (* Change graphs.                                                           *)
@@ -201,7 +203,7 @@ VARIABLES
     graph,    \* evaluator: the Dag (as a sub-graph of store)
     queue,    \* evaluator: rest of the order computed by prune_by
     obj,      \* evaluator: the object under construction
-    result    \* view returned by the last completed get, None before / after a ref moved
+    result    \* view returned by the last completed get, NoView before / after a ref moved
 
 vars == <<store, refs, pc, stack, seen, edges, graph, queue, obj, result>>
 
@@ -214,20 +216,20 @@ Perms(S) == IF S = {} THEN {<<>>} ELSE UNION {{<<x>> \o p : p \in Perms(S \ {x})
 IdleInit(G) ==
     /\ store = G
     /\ pc = "idle" /\ stack = <<>> /\ seen = {} /\ edges = {}
-    /\ graph = Restrict(G, {}) /\ queue = <<>> /\ obj = InitObj /\ result = None
+    /\ graph = Restrict(G, {}) /\ queue = <<>> /\ obj = InitObj /\ result = NoView
 
 \* A namespace's reference is created or moved (to any change the replica holds: references are
 \* not required to move forward).
 SetRef(n, c) ==
     /\ pc = "idle" /\ c \in store.nodes /\ refs[n] # c
     /\ refs' = [refs EXCEPT ![n] = c]
-    /\ result' = None
+    /\ result' = NoView
     /\ UNCHANGED <<store, pc, stack, seen, edges, graph, queue, obj>>
 
 DelRef(n) ==
     /\ pc = "idle" /\ refs[n] # None
     /\ refs' = [refs EXCEPT ![n] = None]
-    /\ result' = None
+    /\ result' = NoView
     /\ UNCHANGED <<store, pc, stack, seen, edges, graph, queue, obj>>
 
 \* cob::get, step 1: `storage.objects(typename, oid)` -- the references in *some* order.
@@ -299,7 +301,7 @@ LoadIsClosure ==
 \* C05 for the steps of `get`: the view a replica computes is the function View of the closure
 \* of its references -- independent of which namespaces hold them and of the enumeration order.
 C05_GetIsFunctionOfClosure ==
-    (pc = "idle" /\ result # None) => result = View(Restrict(store, Closure(store, RefTargets)))
+    (pc = "idle" /\ result # NoView) => result = View(Restrict(store, Closure(store, RefTargets)))
 
 \* While evaluating: the object only ever contains effects of changes still in the graph.
 WalkNoTrace ==
@@ -354,13 +356,44 @@ C05_ClosureOnly(G, R1, R2) ==
 
 DownSets(G) == {S \in SUBSET G.nodes : Root \in S /\ DownClosed(G, S)}
 
-Theorems(G) ==
-    /\ OrderStableUnderRemoval(G)
-    /\ \A S \in DownSets(G) :
-         LET H == Restrict(G, S)
-             e == Eval(H)
-         IN /\ OrderIsLinearExtension(H)
-            /\ C06_PrunedIsRejectedUpClosure(H, e)
-            /\ C06_NoTrace(H, e)
-            /\ C06_NoEffect(H, e)
+(* The declarative statement of C05 + C06: the views that the properties *allow* for a change   *)
+(* set G, whatever evaluation order an implementation chooses.  The history is the loaded set   *)
+(* minus changes that are invalid in every state and their dependents (exactly that, when no    *)
+(* change has a state-dependent validity); the object shows every surviving change once, in an  *)
+(* order compatible with the dependencies, replies only after their target, the last writer is  *)
+(* the last surviving writer.  The transcribed algorithm must stay within it (AlgWithinStatement)*)
+(* and so must every answer recorded from the implementation (TraceCob.tla).                    *)
+StateDependent == {"needs", "soft"}
+UpClosure(G, S) == S \cup UNION {Desc(G, c) : c \in S}
+LastOk(G, log) ==
+    LET idx == {i \in DOMAIN log : G.cls[log[i]] = "ok"}
+    IN IF idx = {} THEN Root ELSE log[CHOOSE i \in idx : \A j \in idx : j <= i]
+
+Allowed(G, v) ==
+    /\ Root \in v.hist /\ v.hist \subseteq G.nodes /\ DownClosed(G, v.hist)
+    /\ \A c \in v.hist \ {Root} : G.cls[c] \notin AlwaysInvalid
+    /\ (\A c \in NonRootOf(G) : G.cls[c] \notin StateDependent)
+          => v.hist = G.nodes \ UpClosure(G, {c \in NonRootOf(G) : G.cls[c] \in AlwaysInvalid})
+    /\ v.tips = Tips(Restrict(G, v.hist))
+    /\ IsPermutationOf(v.log, v.hist \ {Root})
+    /\ \A c \in v.hist \ {Root} :
+          /\ \A d \in Deps(G, c) \ {Root} : Pos(v.log, d) < Pos(v.log, c)
+          /\ G.cls[c] = "needs" => (G.tgt[c] \in v.hist \ {Root} /\ Pos(v.log, G.tgt[c]) < Pos(v.log, c))
+    /\ v.lww = LastOk(G, v.log)
+
+AlgWithinStatement(G, e) == Allowed(G, ViewOf(e))
+
+\* The theorems about one change set H (what a replica holds: closed under dependencies).
+TheoremsAt(H) ==
+    LET e == Eval(H) IN
+    /\ OrderIsLinearExtension(H)
+    /\ OrderStableUnderRemoval(H)
+    /\ C06_PrunedIsRejectedUpClosure(H, e)
+    /\ C06_NoTrace(H, e)
+    /\ C06_NoEffect(H, e)
+    /\ AlgWithinStatement(H, e)
+
+\* ... for a graph and every dependency-closed part of it (every state a replica that is
+\* receiving the graph can be in).
+Theorems(G) == \A S \in DownSets(G) : TheoremsAt(Restrict(G, S))
 =============================================================================
